@@ -228,6 +228,7 @@ package multiplex
 //@ lockorder Stream.writingM < Session.streamsM < streamBuffer.recvM < streamBufferedPipe.rwCond.L < datagramBufferedPipe.rwCond.L
 //@ guardedby Stream.writingM: Stream.writingFrame
 //@ guardedby Session.streamsM: Session.streams
+//@ lockinv Session.streamsM: self.streams != nil
 //@ shared Stream.closed flag
 //@ shared Session.closed flag
 //@ shared switchboard.broken flag
@@ -300,3 +301,70 @@ package multiplex
 //@   loop 0 invariant lock: held(s.writingM)
 //@   loop 0 invariant datagram: s.session.Unordered && len(in) > s.session.maxStreamUnitWrite ==> n == 0 && s.writingFrame.Seq == old(s.writingFrame.Seq)
 //@   loop 0 invariant noErr: err == nil
+
+// interface recvBuffer (implemented by streamBuffer and datagramBufferedPipe): thin contracts used by
+// the stream layer; the implementations are verified separately (C02, C14).
+//@ func (recvBuffer).Close
+//@   flag trusted
+//@   modifies *
+//@   preserves Frame.StreamID, Frame.Seq, Frame.Closing, Frame.Payload, Stream.id, Stream.session, Session.sb, SessionConfig.MsgOnWireSizeLimit, Session.maxStreamUnitWrite, Session.streamSendBufferSize, SessionConfig.Unordered, SessionConfig.Valve, SessionConfig.Singleplex, Obfuscator.payloadCipher, switchboard.session, switchboard.valve, heap(B_Slice)
+//@ func (recvBuffer).Write
+//@   flag trusted
+//@   modifies *
+//@   preserves Frame.StreamID, Frame.Seq, Frame.Closing, Frame.Payload, Stream.id, Stream.session, Session.sb, SessionConfig.MsgOnWireSizeLimit, Session.maxStreamUnitWrite, Session.streamSendBufferSize, SessionConfig.Unordered, SessionConfig.Valve, SessionConfig.Singleplex, Obfuscator.payloadCipher, switchboard.session, switchboard.valve, heap(B_Slice)
+//@ func (recvBuffer).Read
+//@   flag trusted
+//@   ensures 0 <= n && n <= len(p)
+//@   modifies *
+//@   preserves Frame.StreamID, Frame.Seq, Frame.Closing, Frame.Payload, Stream.id, Stream.session, Session.sb, SessionConfig.MsgOnWireSizeLimit, Session.maxStreamUnitWrite, Session.streamSendBufferSize, SessionConfig.Unordered, SessionConfig.Valve, SessionConfig.Singleplex, Obfuscator.payloadCipher, switchboard.session, switchboard.valve, heap(B_Slice)
+
+//@ func (*Session).Close
+//@   flag trusted
+//@   requires sesh != nil
+//@   modifies *
+//@   preserves Frame.StreamID, Frame.Seq, Frame.Closing, Frame.Payload, Stream.id, Stream.session, Session.sb, SessionConfig.MsgOnWireSizeLimit, Session.maxStreamUnitWrite, Session.streamSendBufferSize, SessionConfig.Unordered, SessionConfig.Valve, SessionConfig.Singleplex, Obfuscator.payloadCipher, switchboard.session, switchboard.valve, heap(B_Slice)
+
+//@ func (*Session).streamCountDecr
+//@   flag inline
+//@ func (*Session).streamCountIncr
+//@   flag inline
+//@ func (*Session).IsClosed
+//@   flag inline
+
+// closeStream: a stream is closed at most once (CAS); an active close sends the closing frame through
+// obfuscateAndSend - hence with the next sequence number, under writingM - and the sequence counter is
+// never reset. The table entry is replaced by nil under streamsM.
+//@ func (*Session).closeStream
+//@   requires s != nil && s.session == sesh && seshOK(sesh) && sesh.sb.session != nil && sesh.sb.valve != nil && s.recvBuf != nil
+//@   requires activeLocked: active ==> held(s.writingM)
+//@   requires order: locksBelow(sesh.streamsM)
+//@   ensures seqNeverReset: s.writingFrame.Seq == old(s.writingFrame.Seq) || nextSeq(old(s.writingFrame.Seq), s.writingFrame.Seq)
+//@   ensures passiveSendsNothing: !active ==> s.writingFrame.Seq == old(s.writingFrame.Seq)
+//@   ensures idKept: s.writingFrame.StreamID == old(s.writingFrame.StreamID)
+//@   modifies *
+//@   preserves Frame.StreamID, Stream.id, Stream.session, Session.sb, SessionConfig.MsgOnWireSizeLimit, Session.maxStreamUnitWrite, Session.streamSendBufferSize, SessionConfig.Unordered, SessionConfig.Valve, SessionConfig.Singleplex, Obfuscator.payloadCipher, switchboard.session, switchboard.valve, heap(B_Slice)
+
+//@ func (*Stream).Close
+//@   requires s.session != nil && seshOK(s.session) && s.session.sb.session != nil && s.session.sb.valve != nil && s.recvBuf != nil
+//@   requires notHeld: holdsNone()
+//@   ensures seqNeverReset: s.writingFrame.Seq == old(s.writingFrame.Seq) || nextSeq(old(s.writingFrame.Seq), s.writingFrame.Seq)
+//@   modifies *
+//@   preserves Frame.StreamID, Stream.id, Stream.session, Session.sb, SessionConfig.MsgOnWireSizeLimit, Session.maxStreamUnitWrite, Session.streamSendBufferSize, SessionConfig.Unordered, SessionConfig.Valve, SessionConfig.Singleplex, Obfuscator.payloadCipher, switchboard.session, switchboard.valve, heap(B_Slice)
+
+//@ func (*Stream).passiveClose
+//@   requires s.session != nil && seshOK(s.session) && s.session.sb.session != nil && s.session.sb.valve != nil && s.recvBuf != nil
+//@   requires order: locksBelow(s.session.streamsM)
+//@   ensures sendsNothing: s.writingFrame.Seq == old(s.writingFrame.Seq)
+//@   modifies *
+//@   preserves Frame.StreamID, Stream.id, Stream.session, Session.sb, SessionConfig.MsgOnWireSizeLimit, Session.maxStreamUnitWrite, Session.streamSendBufferSize, SessionConfig.Unordered, SessionConfig.Valve, SessionConfig.Singleplex, Obfuscator.payloadCipher, switchboard.session, switchboard.valve, heap(B_Slice)
+
+// ReadFrom: the encode+send of every chunk happens under writingM (taken around obfuscateAndSend only)
+//@ func (*Stream).ReadFrom
+//@   requires s.session != nil && seshOK(s.session) && s.session.sb.session != nil && s.session.sb.valve != nil
+//@   requires notHeld: holdsNone()
+//@   ensures idKept: s.writingFrame.StreamID == old(s.writingFrame.StreamID)
+//@   modifies *
+//@   preserves Frame.StreamID, Stream.id, Stream.session, Session.sb, SessionConfig.MsgOnWireSizeLimit, Session.maxStreamUnitWrite, Session.streamSendBufferSize, SessionConfig.Unordered, SessionConfig.Valve, SessionConfig.Singleplex, Obfuscator.payloadCipher, switchboard.session, switchboard.valve
+//@   loop 0 invariant sesh: s.session != nil && seshOK(s.session) && s.session.sb.session != nil && s.session.sb.valve != nil
+//@   loop 0 invariant nolocks: holdsNone()
+//@   loop 0 invariant id: s.writingFrame.StreamID == old(s.writingFrame.StreamID)
